@@ -16,6 +16,7 @@ import P2sh.Driver.ReplDrv
 import P2sh.Driver.FilterDrv
 import P2sh.Driver.CoreDrv
 import P2sh.Driver.ParseDrv
+import P2sh.Driver.ResolveDrv
 open P2sh.Driver
 
 def dispatch (line : String) : String :=
@@ -27,6 +28,7 @@ def dispatch (line : String) : String :=
   if line.startsWith "core2 " then CoreDrv.run2 line else
   if line.startsWith "pexpr " then ParseDrv.run line else
   if line.startsWith "pprog " then ParseDrv.runProg line else
+  if line.startsWith "resolve " then ResolveDrv.run line else
   match words line with
   | [] => "bad-op"
   | op :: args =>
